@@ -19,6 +19,10 @@ SPEC = {
         "(pairs <pgn>_t / <pgn>_e); `x / constant` of a whole unsigned parameter is read as the parameter's code with a side "
         "record of that resolution (truncating division, done by `Pair.intCode` in the driver). PGN 126464 (loop) is outside "
         "the layout language: harness' table-driven encoder only",
+        "every public setter of a listed PGN - main function, overloads and the inline alias wrappers of the headers - has a "
+        "setter layout (wrappers are read through the function they forward to) and is compared with the published table of "
+        "its PGN or with its own frozen table (flag overloads: one published status bit per flag; wrappers that fix a field: "
+        "constants); plain integer fields are as wide as PUBLISHED (cut to the C type), not as the setter happens to mask",
         "enumerated fields: a frozen table (enumerator name -> published numeric code, numeric literals) is compared by the "
         "kernel with the enumerations as read from the headers on this run (C15_enum_*), and the harness looks the passed value "
         "up BY NAME among the enumerators as compiled from the real headers and demands the published code on the wire",
